@@ -5,6 +5,7 @@ CONSTANTS Operands <- OperandsC
  LongOperands <- OperandsC
  LongOps <- OpsAll
  LongPres <- PresAll
+ RightTakesRest = FALSE
  GoRemainder = FALSE
  Emit = TRUE
 SPECIFICATION Spec
